@@ -73,6 +73,18 @@ func (encryptor *QueryDataEncryptor) encryptInsertQuery(ctx context.Context, ins
 		}})
 	}
 
+	if encryptor.encryptor != nil && len(insert.ReturningList) > 0 {
+		// remember settings of RETURNING columns as for SELECT columns to describe them according to
+		// their data type in RowDescription packet
+		if err := encryptor.onReturning(ctx, insert.ReturningList, []*pg_query.Node{{
+			Node: &pg_query.Node_RangeVar{
+				RangeVar: insert.GetRelation(),
+			},
+		}}); err != nil {
+			logrus.WithError(err).Debugln("Can't collect settings of RETURNING columns")
+		}
+	}
+
 	var columnsName []string
 	if len(insert.Cols) > 0 {
 		columnsName = make([]string, 0, len(insert.Cols))
@@ -240,6 +252,18 @@ func (encryptor *QueryDataEncryptor) encryptUpdateQuery(ctx context.Context, upd
 		}))
 	}
 
+	if encryptor.encryptor != nil && len(update.ReturningList) > 0 {
+		// remember settings of RETURNING columns as for SELECT columns to describe them according to
+		// their data type in RowDescription packet
+		if err := encryptor.onReturning(ctx, update.ReturningList, append(update.FromClause, &pg_query.Node{
+			Node: &pg_query.Node_RangeVar{
+				RangeVar: update.GetRelation(),
+			},
+		})); err != nil {
+			logrus.WithError(err).Debugln("Can't collect settings of RETURNING columns")
+		}
+	}
+
 	return encryptor.encryptUpdateExpressions(ctx, update, firstTable, qualifierMap, bindPlaceholders)
 }
 
@@ -304,6 +328,18 @@ func (encryptor *QueryDataEncryptor) onDelete(ctx context.Context, delete *pg_qu
 				RangeVar: delete.GetRelation(),
 			},
 		}))
+	}
+
+	if encryptor.encryptor != nil && len(delete.ReturningList) > 0 {
+		// remember settings of RETURNING columns as for SELECT columns to describe them according to
+		// their data type in RowDescription packet
+		if err := encryptor.onReturning(ctx, delete.ReturningList, append(delete.UsingClause, &pg_query.Node{
+			Node: &pg_query.Node_RangeVar{
+				RangeVar: delete.GetRelation(),
+			},
+		})); err != nil {
+			logrus.WithError(err).Debugln("Can't collect settings of RETURNING columns")
+		}
 	}
 
 	return false, nil
